@@ -147,6 +147,13 @@ Theorem rdataset_object_level_refines_value_level :
 Proof. exact obj_refines_value. Qed.
 Print Assumptions rdataset_object_level_refines_value_level.
 
+(* the whole chain in one statement: the rdataset-object model and the reference store give the same results *)
+Theorem rdataset_object_level_refines_the_reference_store :
+  forall c h oz z l, wfc c -> Forall spec_valid h -> Forall spec_items_wf h -> RPo oz z -> RP c z l ->
+  Forall2 (fun x y => fst x = fst y /\ exists z', RPo (snd x) z' /\ RP c z' (snd y)) (obj_hist c h oz) (spec_hist c h l).
+Proof. exact obj_refines_reference. Qed.
+Print Assumptions rdataset_object_level_refines_the_reference_store.
+
 Theorem published_objects_dereference_to_the_value :
   forall oz z, RPo oz z -> z = oderef oz.
 Proof. exact RPo_oderef. Qed.
